@@ -189,6 +189,11 @@ func (ms msgServer) PauseGroup(goCtx context.Context, msg *types.MsgPauseGroup) 
 		return nil, types.ErrGroupNotFound
 	}
 
+	// groups of a closed deployment are final
+	if deployment, found := ms.deployment.GetDeployment(ctx, msg.ID.DeploymentID()); !found || deployment.State != types.DeploymentActive {
+		return nil, types.ErrDeploymentClosed
+	}
+
 	// if Group already closed; return the validation error
 	err := group.ValidatePausable()
 	if err != nil {
@@ -211,6 +216,11 @@ func (ms msgServer) StartGroup(goCtx context.Context, msg *types.MsgStartGroup) 
 	group, found := ms.deployment.GetGroup(ctx, msg.ID)
 	if !found {
 		return &types.MsgStartGroupResponse{}, types.ErrGroupNotFound
+	}
+
+	// groups of a closed deployment are final
+	if deployment, found := ms.deployment.GetDeployment(ctx, msg.ID.DeploymentID()); !found || deployment.State != types.DeploymentActive {
+		return &types.MsgStartGroupResponse{}, types.ErrDeploymentClosed
 	}
 
 	err := group.ValidateStartable()
